@@ -45,11 +45,11 @@ ANCHORS = ['debian._deb822_repro.parsing:Deb822NoDuplicateFieldsParagraphElement
 MUST_REACH = ANCHORS
 FLOORS = {'quick': {'nontrivial': 1200, 'monitors': {'M.step': 8000, 'M.index': 8000, 'M.reparse': 8000, 'K3': 3000, 'K4': 3000, 'K6': 5000},
                     'counters': {'op:order_first': 500, 'op:order_after': 500, 'op:insert': 300, 'op:append': 300,
-                                 'dup-moved-together': 150, 'placed-after-unterminated-last-field': 60}},
+                                 'dup-moved-together': 150, 'placed-after-unterminated-last-field': 60, 'big-document': 8}},
           'thorough': {'nontrivial': 80000, 'monitors': {'M.step': 500000, 'M.index': 500000, 'M.reparse': 500000, 'K3': 200000,
                                                          'K4': 200000, 'K6': 300000},
                        'counters': {'op:order_first': 30000, 'op:order_after': 30000, 'op:insert': 20000, 'op:append': 20000,
-                                    'dup-moved-together': 10000, 'placed-after-unterminated-last-field': 4000}}}
+                                    'dup-moved-together': 10000, 'placed-after-unterminated-last-field': 4000, 'big-document': 1200}}}
 LEVEL_TEXT = ('Runtime monitoring: seeded histories of structural operations on live format-preserving documents; after every '
               'operation the dump is compared with a whole-field reference list model (unique ids identify every field), the '
               '(name, i) index of the live paragraph is compared with document order, a fresh parse is compared with the model, '
@@ -104,9 +104,10 @@ def cases(ctx):
                                                 for _ in range(r.randint(1, 4))]}
             continue
         dup = r.random() < .55
-        doc = rtdoc.gen_doc(r, dup_rate=0.4 if dup else 0.0, max_fields=6)
+        big = r.random() < .012
+        doc = rtdoc.gen_doc(r, dup_rate=(0.15 if big else 0.4) if dup else 0.0, max_fields=6, big=big)
         ids = rtdoc.Ids()
-        ids.n = 5000
+        ids.n = 100000 if big else 5000
         names = [[f['name'] for f in p] for p in doc['paras']]
         dupflag = [len({f['name'].lower() for f in p}) < len(p) for p in doc['paras']]
         ops = []
@@ -246,6 +247,8 @@ def run_case(ctx, case):
         return _history(ctx, case, f, model, [])
     from debian._deb822_repro import parse_deb822_file
     doc = case['doc']
+    if sum(len(p) for p in doc['paras']) >= 80:
+        ctx.count('big-document')
     model = {'lead': doc['lead'], 'seps': list(doc['seps']), 'trail': doc['trail'], 'final_newline': doc['final_newline'],
              'paras': [[dict(fl) for fl in p] for p in doc['paras']]}
     text = rtdoc.doc_text(model)
